@@ -44,7 +44,15 @@ func run(c *core.Ctx) {
 	if c.Expired() {
 		return
 	}
+	k.runSplatValues()
+	if c.Expired() {
+		return
+	}
 	k.runPly()
+	if c.Expired() {
+		return
+	}
+	k.runPlyValues()
 	if c.Expired() {
 		return
 	}
